@@ -77,6 +77,9 @@ instance {κ ν} : GoLen (GoMap κ ν) := ⟨fun m => m.entries.length⟩
 /-- `int(x)`, `uint64(x)`, `float64(x)` between the numeric types: all are `Int` here -/
 def goConv (x : Int) : Int := x
 
+/-- `for i, x := range l`: the elements with their indices -/
+def goEnum {α : Type} (l : List α) : List (Int × α) := l.zipIdx.map fun (a, i) => ((i : Int), a)
+
 /-- outcome of one iteration of a translated `for … range` body -/
 inductive LoopStep (ρ σ : Type) where
   | ret (r : ρ)      -- `return` inside the loop
